@@ -1,6 +1,7 @@
 (** C07 — Any string is expressible in expression syntax; bad expressions fail
     cleanly. Statements only; proofs are in Proofs/Unquote.v, Proofs/Tok.v,
-    Proofs/FilterParse.v, Proofs/ProjParse.v.
+    Proofs/FilterParse.v, Proofs/ProjParse.v, Proofs/TokStream.v,
+    Proofs/FilterReject.v, Proofs/ProjReject.v.
 
     [is_space] stands for unicode.IsSpace and [re_ok] for "regexp.Compile
     succeeds"; the theorems hold for every such pair of functions, the
@@ -9,7 +10,8 @@
     (backslash-escape the quote and the backslash, \xHH for every byte outside
     0x20..0x7e). *)
 From Perf Require Import Base.Bytes Base.Rune Model.Unquote Model.Tok Model.FilterAst
-  Model.FilterParse Model.ProjParse Proofs.Unquote Proofs.Tok Proofs.FilterParse Proofs.ProjParse.
+  Model.FilterParse Model.ProjParse Proofs.Unquote Proofs.Tok Proofs.FilterParse Proofs.ProjParse
+  Proofs.TokStream Proofs.FilterReject Proofs.ProjReject.
 
 (** the model of strconv.Unquote undoes the canonical quoting of any byte string *)
 Theorem C07_unquote_cquote : forall s, unquote (cquote s) = Some s.
@@ -134,3 +136,414 @@ Example C07_example_errors :
   new_projection go_is_space (fun _ => true) (bs ".unit") = Err 0 /\
   new_filter go_is_space (fun _ => true) (bs "a:b .config:c") = Err 4.
 Proof. repeat split; vm_compute; reflexivity. Qed.
+
+(** * What is always rejected
+
+    The clauses are stated over ALL texts through the tokenizer's own token
+    stream: parentheses, colons, "@" inside a quoted word or a regexp are part
+    of that word's token and do not count. The parser asks the tokenizer for a
+    value token (a leading slash starts a regexp) right after a colon and
+    inside a value list k:(...), for a key-or-operator token everywhere else;
+    [filter_tokens q] is the resulting token stream as a function of the text
+    alone ([LexOk ts], or the first lexical fault with its offset), and
+    [filter_lexes q ts st r] says the tokenizer reads the tokens [ts] from [q]
+    without a fault, is then in mode [st] and has [r] left. Projections are
+    read in key-or-operator mode throughout ([proj_tokens], [proj_lexes]).
+    [rejected res q] = [exists off, res = Err off /\ off <= length q]. *)
+
+(** the master theorems. A text the filter parser accepts has no lexical
+    fault; its token stream is accepted by the one-counter automaton [dstep]
+    (Proofs/FilterReject.v: operand and operator positions, key : value,
+    value lists, depth of the group parentheses); every key token is a key of
+    the tree; every offset stored in the tree lies inside the text *)
+Theorem C07_parse_filter_sound :
+  forall is_space re_ok q x,
+  parse_filter is_space re_ok q = Ok x ->
+  exists ts, filter_tokens is_space re_ok q = LexOk ts /\ accepts ts = true
+    /\ incl (dkeys (DO, 0) ts) (fkeys x) /\ Forall (fun o => o <= length q) (foffs x).
+Proof. exact parse_filter_sound. Qed.
+Print Assumptions C07_parse_filter_sound.
+
+(** a text the projection parser accepts has no lexical fault and the
+    automaton with output [pstep] (Proofs/ProjReject.v: key, key@word,
+    key@(word+), optional commas between fields) maps its token stream to
+    exactly the fields returned *)
+Theorem C07_parse_projection_sound :
+  forall is_space re_ok q l,
+  parse_projection is_space re_ok q = Ok l ->
+  exists ts, proj_tokens is_space re_ok q = LexOk ts /\ proj_fields ts = Some l.
+Proof. exact parse_projection_sound. Qed.
+Print Assumptions C07_parse_projection_sound.
+
+(** any lexical fault (missing end quote, bad escape, missing closing slash,
+    regexp that does not compile, regexp not followed by space/operator) *)
+Theorem C07_rejects_lexical_fault :
+  forall is_space re_ok q why off,
+  filter_tokens is_space re_ok q = LexErr why off -> rejected (parse_filter is_space re_ok q) q.
+Proof. exact rejects_lexical_fault. Qed.
+Print Assumptions C07_rejects_lexical_fault.
+
+Theorem C07_rejects_lexical_fault_projection :
+  forall is_space re_ok q why off,
+  proj_tokens is_space re_ok q = LexErr why off -> rejected (parse_projection is_space re_ok q) q.
+Proof. exact proj_rejects_lexical_fault. Qed.
+Print Assumptions C07_rejects_lexical_fault_projection.
+
+(** ** rejects_unbalanced: [balanced ts] = scanning the tokens, the number of
+    open parentheses never goes below zero and is zero at the end *)
+Theorem C07_rejects_unbalanced :
+  forall is_space re_ok q ts,
+  filter_tokens is_space re_ok q = LexOk ts -> balanced ts = false ->
+  rejected (parse_filter is_space re_ok q) q.
+Proof. exact rejects_unbalanced. Qed.
+Print Assumptions C07_rejects_unbalanced.
+
+Theorem C07_rejects_unbalanced_projection :
+  forall is_space re_ok q ts,
+  proj_tokens is_space re_ok q = LexOk ts -> balanced ts = false ->
+  rejected (parse_projection is_space re_ok q) q.
+Proof. exact proj_rejects_unbalanced. Qed.
+Print Assumptions C07_rejects_unbalanced_projection.
+
+(** "(a:b" is unbalanced and rejected; the parenthesis in  a:"("  and in
+    a:/[(]/  is inside a word / a regexp: those texts are balanced and accepted *)
+Example C07_unbalanced_example :
+  let sp := go_is_space in let re := fun _ : bytes => true in
+  (exists ts, filter_tokens sp re (bs "(a:b") = LexOk ts /\ balanced ts = false)
+  /\ parse_filter sp re (bs "(a:b") = Err 4
+  /\ (exists ts, filter_tokens sp re (bs "a:b)") = LexOk ts /\ balanced ts = false)
+  /\ parse_filter sp re (bs "a:b)") = Err 3
+  /\ (exists ts, filter_tokens sp re (bs "a:""(""") = LexOk ts /\ balanced ts = true)
+  /\ parse_filter sp re (bs "a:""(""") = Ok (FMatch (bs "a") (MLit (bs "(")) 0)
+  /\ (exists ts, filter_tokens sp re (bs "a:/[(]/") = LexOk ts /\ balanced ts = true)
+  /\ parse_filter sp re (bs "a:/[(]/") = Ok (FMatch (bs "a") (MRe (bs "[(]")) 0)
+  /\ (exists ts, proj_tokens sp re (bs "a@(b") = LexOk ts /\ balanced ts = false)
+  /\ parse_projection sp re (bs "a@(b") = Err 4.
+Proof.
+  cbv zeta. repeat split; try (vm_compute; reflexivity); eexists; split; vm_compute; reflexivity.
+Qed.
+
+(** ** rejects_unterminated_quote: after reading some tokens without a fault
+    the tokenizer stands (after white space) at a double quote whose scan for
+    the closing quote -- skipping a backslash together with the byte after
+    it -- reaches the end of the text *)
+Theorem C07_rejects_unterminated_quote :
+  forall is_space re_ok q ts st r s,
+  filter_lexes is_space re_ok q ts st r ->
+  skip_spaces is_space r 0 = c_dquote :: s -> qscan s = None ->
+  rejected (parse_filter is_space re_ok q) q.
+Proof. exact rejects_unterminated_quote. Qed.
+Print Assumptions C07_rejects_unterminated_quote.
+
+Theorem C07_rejects_unterminated_quote_projection :
+  forall is_space re_ok q ts r s,
+  proj_lexes is_space re_ok q ts r ->
+  skip_spaces is_space r 0 = c_dquote :: s -> qscan s = None ->
+  rejected (parse_projection is_space re_ok q) q.
+Proof. exact proj_rejects_unterminated_quote. Qed.
+Print Assumptions C07_rejects_unterminated_quote_projection.
+
+(** that situation is exactly the fault [ENoEndQuote] of the token stream, and
+    the offset it carries is the position of the opening quote in the text *)
+Theorem C07_unterminated_quote_iff :
+  forall is_space re_ok q off,
+  filter_tokens is_space re_ok q = LexErr ENoEndQuote off <->
+  exists ts st r p s, filter_lexes is_space re_ok q ts st r
+    /\ skip_spaces is_space r 0 = c_dquote :: s /\ qscan s = None
+    /\ q = p ++ c_dquote :: s /\ off = length p.
+Proof. exact filter_tokens_quote_fault. Qed.
+Print Assumptions C07_unterminated_quote_iff.
+
+Example C07_unterminated_quote_example :
+  let sp := go_is_space in let re := fun _ : bytes => true in
+  (exists ts st r p s, filter_lexes sp re (bs "a:""b\""") ts st r
+     /\ skip_spaces sp r 0 = c_dquote :: s /\ qscan s = None
+     /\ bs "a:""b\""" = p ++ c_dquote :: s /\ 2 = length p)
+  /\ parse_filter sp re (bs "a:""b\""") = Err 2
+  /\ proj_tokens sp re (bs "a ""b") = LexErr ENoEndQuote 2
+  /\ parse_projection sp re (bs "a ""b") = Err 2.
+Proof.
+  cbv zeta. split; [|repeat split; vm_compute; reflexivity].
+  apply filter_tokens_quote_fault. vm_compute. reflexivity.
+Qed.
+
+(** ** rejects_unterminated_regexp: in value position (right after a colon or
+    inside a value list) the tokenizer stands at a slash and the regexp
+    scanner regexpParseUntil ([re_scan]: a slash counts only outside [...]
+    and (...), a backslash hides the next byte) finds no closing slash *)
+Theorem C07_rejects_unterminated_regexp :
+  forall is_space re_ok q ts st r s,
+  filter_lexes is_space re_ok q ts st r -> lmode st = true ->
+  skip_spaces is_space r 0 = c_fslash :: s -> re_scan s 0 0 false = None ->
+  rejected (parse_filter is_space re_ok q) q.
+Proof. exact rejects_unterminated_regexp. Qed.
+Print Assumptions C07_rejects_unterminated_regexp.
+
+Theorem C07_unterminated_regexp_iff :
+  forall is_space re_ok q off,
+  filter_tokens is_space re_ok q = LexErr ENoCloseSlash off <->
+  exists ts st r p s, filter_lexes is_space re_ok q ts st r /\ lmode st = true
+    /\ skip_spaces is_space r 0 = c_fslash :: s /\ re_scan s 0 0 false = None
+    /\ q = p ++ c_fslash :: s /\ off = length p.
+Proof. exact filter_tokens_regexp_fault. Qed.
+Print Assumptions C07_unterminated_regexp_iff.
+
+(** a:/b has no second slash; in a:/(/ x the second slash is inside an open
+    group and does not close the regexp; in key position a slash is an
+    ordinary character: /b:c is accepted *)
+Example C07_unterminated_regexp_example :
+  let sp := go_is_space in let re := fun _ : bytes => true in
+  filter_tokens sp re (bs "a:/b") = LexErr ENoCloseSlash 2
+  /\ parse_filter sp re (bs "a:/b") = Err 2
+  /\ filter_tokens sp re (bs "a:/(/ x") = LexErr ENoCloseSlash 2
+  /\ parse_filter sp re (bs "a:/(/ x") = Err 2
+  /\ parse_filter sp re (bs "/b:c") = Ok (FMatch (bs "/b") (MLit (bs "c")) 0).
+Proof. cbv zeta. repeat split; vm_compute; reflexivity. Qed.
+
+(** ** rejects_missing_colon_or_value.
+    (a) a word (bare or quoted) read in key mode -- [lstate_after pre = LKey]:
+    not right after a colon, not inside a value list -- that is the last
+    token or is followed by anything but a colon *)
+Theorem C07_rejects_missing_colon :
+  forall is_space re_ok q pre k post,
+  filter_tokens is_space re_ok q = LexOk (pre ++ k :: post) ->
+  lstate_after pre = LKey -> is_word (t_kind k) = true ->
+  match post with [] => True | c :: _ => is_colon c = false end ->
+  rejected (parse_filter is_space re_ok q) q.
+Proof. exact rejects_missing_colon. Qed.
+Print Assumptions C07_rejects_missing_colon.
+
+(** (b) a colon that is the last token, or is followed by a token that is
+    neither a value (word, quoted word, regexp) nor "(" opening a value list
+    whose first token is a value; the keywords AND and OR are not values *)
+Theorem C07_rejects_missing_value :
+  forall is_space re_ok q pre c post,
+  filter_tokens is_space re_ok q = LexOk (pre ++ c :: post) -> is_colon c = true ->
+  match post with
+  | [] => True
+  | v :: post' =>
+      is_value (t_kind v) = false /\
+      (is_lpar v = true ->
+       match post' with [] => True | v' :: _ => is_value (t_kind v') = false end)
+  end ->
+  rejected (parse_filter is_space re_ok q) q.
+Proof. exact rejects_missing_value. Qed.
+Print Assumptions C07_rejects_missing_value.
+
+Example C07_missing_colon_or_value_example :
+  let sp := go_is_space in let re := fun _ : bytes => true in
+  let w o s := mkTok KWord o s in let op o c := mkTok (KOp c) o [c] in
+  (filter_tokens sp re (bs "a b:c") = LexOk ([] ++ w 0 (bs "a") :: [w 2 (bs "b"); op 3 c_colon; w 4 (bs "c")])
+   /\ lstate_after [] = LKey /\ is_word (t_kind (w 0 (bs "a"))) = true /\ is_colon (w 2 (bs "b")) = false
+   /\ parse_filter sp re (bs "a b:c") = Err 0)
+  /\ (filter_tokens sp re (bs "a:") = LexOk ([w 0 (bs "a")] ++ op 1 c_colon :: [])
+      /\ parse_filter sp re (bs "a:") = Err 0)
+  /\ (filter_tokens sp re (bs "a:()") = LexOk ([w 0 (bs "a")] ++ op 1 c_colon :: [op 2 c_lpar; op 3 c_rpar])
+      /\ is_value (t_kind (op 2 c_lpar)) = false /\ is_value (t_kind (op 3 c_rpar)) = false
+      /\ parse_filter sp re (bs "a:()") = Err 3)
+  /\ (filter_tokens sp re (bs "a:AND") = LexOk ([w 0 (bs "a")] ++ op 1 c_colon :: [mkTok KAnd 2 (bs "AND")])
+      /\ parse_filter sp re (bs "a:AND") = Err 0).
+Proof. cbv zeta. repeat split; vm_compute; reflexivity. Qed.
+
+(** ** rejects_empty_fixed_list: "k@()" -- an opening parenthesis directly
+    followed by a closing one, anywhere in a projection *)
+Theorem C07_rejects_empty_fixed_list :
+  forall is_space re_ok q pre lp rp post,
+  proj_tokens is_space re_ok q = LexOk (pre ++ lp :: rp :: post) ->
+  is_lpar lp = true -> is_rpar rp = true ->
+  rejected (parse_projection is_space re_ok q) q.
+Proof. exact rejects_empty_fixed_list. Qed.
+Print Assumptions C07_rejects_empty_fixed_list.
+
+Example C07_empty_fixed_list_example :
+  let sp := go_is_space in let re := fun _ : bytes => true in
+  let w o s := mkTok KWord o s in let op o c := mkTok (KOp c) o [c] in
+  proj_tokens sp re (bs "a@()") = LexOk ([w 0 (bs "a"); op 1 c_at] ++ op 2 c_lpar :: op 3 c_rpar :: [])
+  /\ parse_projection sp re (bs "a@()") = Err 3.
+Proof. cbv zeta. split; vm_compute; reflexivity. Qed.
+
+(** ** rejects_unknown_order. The semantic layer new_projection accepts a list
+    of fields exactly when every field has one of the four order names, does
+    not combine .config with fixed, and has a key other than .unit and "" *)
+Theorem C07_known_order_iff :
+  forall o, known_order o = true <->
+            o = bs "fixed" \/ o = bs "first" \/ o = bs "alpha" \/ o = bs "num".
+Proof. exact known_order_iff. Qed.
+Print Assumptions C07_known_order_iff.
+
+Theorem C07_new_projection_ok_iff :
+  forall is_space re_ok q l,
+  new_projection is_space re_ok q = Ok l <->
+  parse_projection is_space re_ok q = Ok l /\
+  Forall (fun p => known_order (pf_order p) = true /\
+                   (pf_key p = key_config -> pf_order p <> ord_fixed) /\
+                   pf_key p <> key_unit /\ pf_key p <> []) l.
+Proof. exact new_projection_ok_iff. Qed.
+Print Assumptions C07_new_projection_ok_iff.
+
+(** "k@name": a word right after an "@", with a name that is none of the four *)
+Theorem C07_rejects_unknown_order :
+  forall is_space re_ok q pre a w post,
+  proj_tokens is_space re_ok q = LexOk (pre ++ a :: w :: post) ->
+  is_at a = true -> is_word (t_kind w) = true -> known_order (t_text w) = false ->
+  rejected (new_projection is_space re_ok q) q.
+Proof. exact rejects_unknown_order. Qed.
+Print Assumptions C07_rejects_unknown_order.
+
+(** what the code accepts, for ALL byte strings k and name written as quoted
+    words: the syntax layer takes any name as the order ... *)
+Theorem C07_named_order_syntax :
+  forall is_space re_ok, is_space 34%N = false ->
+  forall k o,
+  parse_projection is_space re_ok (cquote k ++ c_at :: cquote o)
+  = Ok [mkField k o [] 0 (S (length (cquote k)))].
+Proof. exact projection_named_order. Qed.
+Print Assumptions C07_named_order_syntax.
+
+(** ... and the semantic layer exactly the four names (fixed not for .config) *)
+Theorem C07_named_order_accepted_iff :
+  forall is_space re_ok, is_space 34%N = false ->
+  forall k o,
+  (exists l, new_projection is_space re_ok (cquote k ++ c_at :: cquote o) = Ok l) <->
+  known_order o = true /\ (k = key_config -> o <> ord_fixed) /\ k <> key_unit /\ k <> [].
+Proof. exact new_projection_named_order_iff. Qed.
+Print Assumptions C07_named_order_accepted_iff.
+
+(** OBSERVATION: the order name "fixed" is accepted by the syntax layer and by
+    the semantic layer, and yields a fixed order with an EMPTY value list --
+    the projection that "k@()" is refused for ("nothing to match") *)
+Theorem C07_fixed_by_name_accepted :
+  forall is_space re_ok, is_space 34%N = false ->
+  forall k, k <> [] -> k <> key_unit -> k <> key_config ->
+  new_projection is_space re_ok (cquote k ++ c_at :: cquote ord_fixed)
+  = Ok [mkField k ord_fixed [] 0 (S (length (cquote k)))].
+Proof. exact fixed_by_name_accepted. Qed.
+Print Assumptions C07_fixed_by_name_accepted.
+
+Example C07_unknown_order_example :
+  let sp := go_is_space in let re := fun _ : bytes => true in
+  let w o s := mkTok KWord o s in let op o c := mkTok (KOp c) o [c] in
+  proj_tokens sp re (bs "a@bogus") = LexOk ([w 0 (bs "a")] ++ op 1 c_at :: w 2 (bs "bogus") :: [])
+  /\ known_order (bs "bogus") = false
+  /\ parse_projection sp re (bs "a@bogus") = Ok [mkField (bs "a") (bs "bogus") [] 0 2]
+  /\ new_projection sp re (bs "a@bogus") = Err 2
+  /\ new_projection sp re (bs "a@num") = Ok [mkField (bs "a") (bs "num") [] 0 2]
+  /\ new_projection sp re (bs "a@fixed") = Ok [mkField (bs "a") (bs "fixed") [] 0 2]
+  /\ new_projection sp re (bs ".config@fixed") = Err 8.
+Proof. cbv zeta. repeat split; vm_compute; reflexivity. Qed.
+
+(** ** rejects_unit_in_projection: some field of the parsed projection has the
+    key .unit -- whatever its order, wherever it stands *)
+Theorem C07_rejects_unit_in_projection :
+  forall is_space re_ok q l p,
+  parse_projection is_space re_ok q = Ok l -> In p l -> pf_key p = key_unit ->
+  rejected (new_projection is_space re_ok q) q.
+Proof. exact rejects_unit_tree. Qed.
+Print Assumptions C07_rejects_unit_in_projection.
+
+(** the same on the text: the word .unit (bare or quoted) in key position,
+    i.e. outside parentheses and not right after an "@" *)
+Theorem C07_rejects_unit_in_projection_text :
+  forall is_space re_ok q pre k post,
+  proj_tokens is_space re_ok q = LexOk (pre ++ k :: post) ->
+  is_word (t_kind k) = true ->
+  (paren_depth 0 pre = Some 0 /\ forall pre' a, pre = pre' ++ [a] -> is_at a = false) ->
+  t_text k = key_unit ->
+  rejected (new_projection is_space re_ok q) q.
+Proof. exact rejects_unit_text. Qed.
+Print Assumptions C07_rejects_unit_in_projection_text.
+
+Example C07_unit_in_projection_example :
+  let sp := go_is_space in let re := fun _ : bytes => true in
+  let w o s := mkTok KWord o s in let op o c := mkTok (KOp c) o [c] in
+  proj_tokens sp re (bs "b,.unit@alpha")
+    = LexOk ([w 0 (bs "b"); op 1 c_comma] ++ w 2 (bs ".unit") :: [op 7 c_at; w 8 (bs "alpha")])
+  /\ paren_depth 0 [w 0 (bs "b"); op 1 c_comma] = Some 0
+  /\ (forall pre' a, [w 0 (bs "b"); op 1 c_comma] = pre' ++ [a] -> is_at a = false)
+  /\ parse_projection sp re (bs "b,.unit@alpha")
+     = Ok [mkField (bs "b") ord_first [] 0 1; mkField key_unit (bs "alpha") [] 2 8]
+  /\ new_projection sp re (bs "b,.unit@alpha") = Err 2
+  (* as a member of a fixed list or as an order name .unit is no key: accepted / other error *)
+  /\ new_projection sp re (bs "a@(.unit b)") = Ok [mkField (bs "a") ord_fixed [key_unit; bs "b"] 0 2].
+Proof.
+  cbv zeta. repeat split; try (vm_compute; reflexivity).
+  intros pre' a H. destruct pre' as [|x [|y [|z pre']]]; try discriminate H.
+  injection H as _ <-. reflexivity.
+Qed.
+
+(** ** rejects_config_in_filter. NewFilter accepts a tree exactly when none of
+    its keys -- at any depth, including the keys of value lists -- is .config
+    or the empty key *)
+Theorem C07_new_filter_ok_iff :
+  forall is_space re_ok q x,
+  new_filter is_space re_ok q = Ok x <->
+  parse_filter is_space re_ok q = Ok x /\
+  Forall (fun k => k <> key_config /\ k <> []) (fkeys x).
+Proof. exact new_filter_ok_iff. Qed.
+Print Assumptions C07_new_filter_ok_iff.
+
+Theorem C07_rejects_config_in_filter :
+  forall is_space re_ok q x,
+  parse_filter is_space re_ok q = Ok x -> In key_config (fkeys x) ->
+  rejected (new_filter is_space re_ok q) q.
+Proof. exact rejects_config_tree. Qed.
+Print Assumptions C07_rejects_config_in_filter.
+
+(** the same on the text: the word .config (bare or quoted) in front of a
+    colon, anywhere in the text *)
+Theorem C07_rejects_config_in_filter_text :
+  forall is_space re_ok q pre k c post,
+  filter_tokens is_space re_ok q = LexOk (pre ++ k :: c :: post) ->
+  is_word (t_kind k) = true -> is_colon c = true -> t_text k = key_config ->
+  rejected (new_filter is_space re_ok q) q.
+Proof. exact rejects_config_text. Qed.
+Print Assumptions C07_rejects_config_in_filter_text.
+
+(** under a negation, in a group, in the second operand of an AND, with a value list *)
+Example C07_config_in_filter_example :
+  let sp := go_is_space in let re := fun _ : bytes => true in
+  let q := bs "-(a:b OR (x:y "".config"":(c OR d)))" in
+  (exists x, parse_filter sp re q = Ok x /\ In key_config (fkeys x))
+  /\ (exists pre k c post, filter_tokens sp re q = LexOk (pre ++ k :: c :: post)
+        /\ is_word (t_kind k) = true /\ is_colon c = true /\ t_text k = key_config)
+  /\ new_filter sp re q = Err 14
+  (* as a value .config is fine *)
+  /\ new_filter sp re (bs "a:.config") = Ok (FMatch (bs "a") (MLit key_config) 0).
+Proof.
+  cbv zeta. split; [|split; [|split; vm_compute; reflexivity]].
+  - eexists. split; [vm_compute; reflexivity|]. vm_compute. tauto.
+  - exists (firstn 10 (match filter_tokens go_is_space (fun _ => true)
+                              (bs "-(a:b OR (x:y "".config"":(c OR d)))") with LexOk ts => ts | _ => [] end)).
+    do 3 eexists. split; [vm_compute; reflexivity|]. repeat split.
+Qed.
+
+(** ** semantic_error_offset_in_range, and totality of the semantic layers *)
+Theorem C07_new_filter_error_offset_in_range :
+  forall is_space re_ok q off, new_filter is_space re_ok q = Err off -> off <= length q.
+Proof. exact new_filter_error_offset. Qed.
+Print Assumptions C07_new_filter_error_offset_in_range.
+
+Theorem C07_new_projection_error_offset_in_range :
+  forall is_space re_ok q off, new_projection is_space re_ok q = Err off -> off <= length q.
+Proof. exact new_projection_error_offset. Qed.
+Print Assumptions C07_new_projection_error_offset_in_range.
+
+Theorem C07_new_filter_total :
+  forall is_space re_ok q, new_filter is_space re_ok q <> OutOfFuel.
+Proof. exact new_filter_total. Qed.
+Print Assumptions C07_new_filter_total.
+
+Theorem C07_new_projection_total :
+  forall is_space re_ok q, new_projection is_space re_ok q <> OutOfFuel.
+Proof. exact new_projection_total. Qed.
+Print Assumptions C07_new_projection_total.
+
+(** OBSERVATION behind the projection bound: a field without "@" stores
+    OrderOff = KeyOff + len(unquoted key), which can lie beyond the text (two
+    raw 0xff bytes in quotes: 4 bytes of text, a 6-byte key, OrderOff 6); the
+    semantic layer never reports that offset because the order is then
+    "first", which is why the bound holds *)
+Example C07_order_offset_beyond_text :
+  parse_projection go_is_space (fun _ => true) [x22; xff; xff; x22]
+  = Ok [mkField [xef; xbf; xbd; xef; xbf; xbd] ord_first [] 0 6].
+Proof. vm_compute. reflexivity. Qed.
